@@ -93,3 +93,71 @@ def binding_rule(chk, rule, lib, scope):
                                 "the dispatcher of %s can bind %s, which is also (and by its name properly) an implementation of %s: on the CPU class that selects this slot the interface runs code written for another interface" % (foreign[0], cand, ", ".join(home) or "another interface"),
                                 loc=(o.src if o else None)))
     return n
+
+
+def slot_families(chk, lib, scope):
+    """{interface: {cpu-facts key: (candidate, family tokens, facts description)}} for every dispatcher whose
+    interface name starts with one of `scope`.  The family is what the candidate's name adds to the interface's
+    (sse, avx_gen2, avx_gen4, vaes_avx512, avx512_ni ...)."""
+    out = {}
+    for key, name in lib.entry_list:
+        if not name.endswith("_dispatch_init"):
+            continue
+        iface = name[:-len("_dispatch_init")]
+        if not iface.startswith(tuple(scope)):
+            continue
+        try:
+            paths = c12.ladder_paths(lib, lib.func(key), None)
+        except c12.Unmodelled as e:
+            chk.broke("%s: %s" % (name, e))
+            continue
+        itok = [t for t in iface.split("_") if t]
+        slots = {}
+        for (facts, stored, addr) in paths:
+            if isinstance(stored, tuple) and stored[1] and stored[1][0] == "addr":
+                cand = stored[1][1]
+                rest = [t for t in cand.split("_") if t]
+                for t in itok:
+                    if t in rest:
+                        rest.remove(t)
+                slots[facts.key()] = (cand, tuple(rest), "; ".join(facts.describe()))
+        out[iface] = slots
+    return out
+
+
+def coherence_rule(chk, rule, lib, scope, group_of, why):
+    """Interfaces that work on one shared state (group_of(interface) -> group label or None) must be bound to the
+    same implementation family under the same CPU facts: the state one writes is laid out for its own family."""
+    from report import Finding
+    fam = slot_families(chk, lib, scope)
+    groups = {}
+    for iface, slots in fam.items():
+        g = group_of(iface)
+        if g is not None:
+            groups.setdefault(g, {})[iface] = slots
+    n = 0
+    for g, members in sorted(groups.items()):
+        keys = set()
+        for s in members.values():
+            keys |= set(s)
+        for k in sorted(keys):
+            byfam = {}
+            desc = ""
+            for iface, s in sorted(members.items()):
+                if k in s:
+                    byfam.setdefault(s[k][1], []).append((iface, s[k][0]))
+                    desc = s[k][2]
+            n += 1
+            ok = len(byfam) == 1
+            chk.obligation(rule, ok, key=("coherence", g, k), sample={"group": g, "cpu": desc[:200], "family": "_".join(sorted(byfam)[0]), "interfaces": sum(len(v) for v in byfam.values())})
+            if not ok:
+                major = max(byfam.values(), key=len)
+                for f_, lst in sorted(byfam.items()):
+                    if lst is major:
+                        continue
+                    for (iface, cand) in lst:
+                        o = lib.by_name[lib._by_name[cand][0]] if cand in lib._by_name else None
+                        chk.finding(Finding(rule, iface + "_dispatch_init", iface + "_dispatch_init", "slot:" + cand,
+                                            "on a CPU where [%s] the dispatcher of %s binds %s while %d sibling interface(s) of group %s bind the %s family (e.g. %s): %s" %
+                                            (desc, iface, cand, len(major), g, "_".join(major and [t for t in sorted(byfam, key=lambda x: -len(byfam[x]))[0]]), major[0][1], why), loc=(o.src if o else None)))
+    return n
